@@ -58,27 +58,31 @@ type failOut struct {
 }
 
 type roundOut struct {
-	Rep            int                `json:"rep"`
-	Round          int                `json:"round"`
-	G              int                `json:"g"`
-	P              int                `json:"p"`
-	Size           int                `json:"size"`
-	Mix            string             `json:"mix"`
-	Ops            int                `json:"ops"`
-	ByTmpl         map[string]int     `json:"by_tmpl"`
-	ByKind         map[string]int     `json:"by_kind"`
-	Obj            map[string]*objOut `json:"obj"`
-	Distinct       []string           `json:"distinct"`
-	Fails          []failOut          `json:"fails"`
-	ErrClasses     map[string]int     `json:"err_classes"`
-	IOCalls        int64              `json:"io_calls"`
-	Prov           map[string]string  `json:"prov"`
-	BareRSA        bool               `json:"bare_rsa"`
-	BareFirstPairs int                `json:"bare_first_pairs"`
-	ListChecks     int                `json:"list_checks"`
-	SeqOps         int                `json:"seq_ops"`
-	Done           bool               `json:"done,omitempty"`
-	Rounds         int                `json:"rounds,omitempty"`
+	Rep             int                `json:"rep"`
+	Round           int                `json:"round"`
+	G               int                `json:"g"`
+	P               int                `json:"p"`
+	Size            int                `json:"size"`
+	Mix             string             `json:"mix"`
+	Ops             int                `json:"ops"`
+	ByTmpl          map[string]int     `json:"by_tmpl"`
+	ByKind          map[string]int     `json:"by_kind"`
+	Obj             map[string]*objOut `json:"obj"`
+	Distinct        []string           `json:"distinct"`
+	Fails           []failOut          `json:"fails"`
+	ErrClasses      map[string]int     `json:"err_classes"`
+	IOCalls         int64              `json:"io_calls"`
+	Prov            map[string]string  `json:"prov"`
+	BareRSA         bool               `json:"bare_rsa"`
+	BareFirstPairs  int                `json:"bare_first_pairs"`
+	Variants        map[string]int     `json:"variants"`
+	WarmDoubleClose int                `json:"warm_double_close"`
+	DoubleCloseOps  int                `json:"double_close_ops"`
+	EncOverlapPairs int                `json:"enc_overlap_pairs"`
+	ListChecks      int                `json:"list_checks"`
+	SeqOps          int                `json:"seq_ops"`
+	Done            bool               `json:"done,omitempty"`
+	Rounds          int                `json:"rounds,omitempty"`
 }
 
 // ---- the shared values -----------------------------------------------------
@@ -101,6 +105,7 @@ type world struct {
 	ei  *agessh.Ed25519Identity
 	ri  *agessh.RSAIdentity
 
+	warmRec age.Recipient     // unshared, used alone by the warm-up
 	prov    map[string]string // constructor variant of each shared value in this round
 	bareRSA bool              // the RSA identity wraps a key without Precomputed values
 
@@ -173,6 +178,7 @@ func newWorld(seed int64) *world {
 	for _, p := range []string{"X1", "S1", "E1", "R1"} {
 		w.probes[p] = w.buildFile(p, probePlain, rng)
 	}
+	w.warmRec = w.x2.Recipient()
 	w.fresh(0)
 	return w
 }
@@ -449,6 +455,18 @@ func opsPerG(G int) int {
 
 // ---- one operation -----------------------------------------------------------
 
+// Caller variations: everything here is legal use of the io.WriteCloser /
+// io.Reader that Encrypt / Decrypt return, and none of it may change the result
+// of this or of any other operation.
+var encVariants = []string{"plain", "plain", "close-twice", "close+deferred-close", "write-after-close", "zero-length-writes",
+	"abandoned-extra-writer", "zero-length-writes+close-twice"}
+var decVariants = []string{"plain", "read-past-eof", "zero-length-reads", "zero-length-reads+read-past-eof"}
+
+func encDoubleClose(v int) bool {
+	n := encVariants[v%len(encVariants)]
+	return strings.Contains(n, "close-twice") || strings.Contains(n, "deferred-close")
+}
+
 // tick is the one atomic counter every operation stamps its call and return
 // with. An atomic add is also a synchronisation point for the race detector,
 // so two operations are unordered for the detector exactly when their
@@ -462,6 +480,7 @@ type opInst struct {
 	g, j    int
 	file    []byte // dec/wrong input, enc output
 	scratch []byte // reusable output buffer
+	variant int    // "sloppy but legal caller" variation, see encVariants / decVariants
 
 	call, head, ret int64
 	io              int64
@@ -523,28 +542,64 @@ func execOp(w *world, op *opInst, pt []byte, rng *rand.Rand) {
 	}()
 	switch op.t.kind {
 	case "enc", "derive":
+		vn := encVariants[op.variant%len(encVariants)]
 		buf := bytes.NewBuffer(op.scratch[:0])
 		dst := &mon.PerturbWriter{W: cw{buf, &op.io}, Rng: rng}
 		op.call = tick.Add(1)
+		if vn == "abandoned-extra-writer" {
+			// a stream that is started and then dropped without Close
+			var junk bytes.Buffer
+			if aw, aerr := age.Encrypt(&junk, w.recipients(op.t)...); aerr == nil {
+				n := len(pt)
+				if n > 1000 {
+					n = 1000
+				}
+				aw.Write(pt[:n])
+			}
+		}
 		wc, err := age.Encrypt(dst, w.recipients(op.t)...)
 		op.head = tick.Load()
 		if err == nil {
-			p := pt
-			for len(p) > 0 && err == nil {
-				n := 1 + rng.Intn(48<<10)
-				if n > len(p) {
-					n = len(p)
+			func() {
+				if vn == "close+deferred-close" {
+					defer wc.Close() // the usual safety net next to the checked Close below
 				}
-				var m int
-				m, err = wc.Write(p[:n])
-				if err == nil && m != n {
-					err = fmt.Errorf("short write %d of %d with nil error", m, n)
+				zero := strings.Contains(vn, "zero-length-writes")
+				p := pt
+				if zero {
+					wc.Write(nil)
 				}
-				p = p[n:]
-			}
-			if err == nil {
-				err = wc.Close()
-			}
+				for len(p) > 0 && err == nil {
+					n := 1 + rng.Intn(48<<10)
+					if n > len(p) {
+						n = len(p)
+					}
+					var m int
+					m, err = wc.Write(p[:n])
+					if err == nil && m != n {
+						err = fmt.Errorf("short write %d of %d with nil error", m, n)
+					}
+					p = p[n:]
+					if zero && err == nil {
+						if m, zerr := wc.Write(p[:0]); zerr != nil || m != 0 {
+							err = fmt.Errorf("zero-length Write returned (%d, %v)", m, zerr)
+						}
+					}
+				}
+				if err == nil {
+					err = wc.Close()
+				}
+				if err == nil {
+					switch {
+					case strings.Contains(vn, "close-twice"):
+						wc.Close() // error or nil, ignored
+					case vn == "write-after-close":
+						if m, werr := wc.Write([]byte("after close")); werr == nil {
+							err = fmt.Errorf("Write after Close returned (%d, nil)", m)
+						}
+					}
+				}
+			}()
 		}
 		op.ret = tick.Add(1)
 		if err != nil {
@@ -570,12 +625,28 @@ func execOp(w *world, op *opInst, pt []byte, rng *rand.Rand) {
 		op.head = tick.Load()
 		var rerr error
 		if err == nil {
+			dv := decVariants[op.variant%len(decVariants)]
+			zero := strings.Contains(dv, "zero-length-reads")
 			for {
+				if zero {
+					if n, e := r.Read(buf[:0]); n != 0 || (e != nil && e != io.EOF) {
+						rerr = fmt.Errorf("zero-length Read returned (%d, %v)", n, e)
+						break
+					}
+				}
 				n, e := r.Read(buf)
 				out = append(out, buf[:n]...)
 				if e != nil {
 					rerr = e
 					break
+				}
+			}
+			if rerr == io.EOF && strings.Contains(dv, "read-past-eof") {
+				for k := 0; k < 3; k++ {
+					if n, e := r.Read(buf); n != 0 || e != io.EOF {
+						rerr = fmt.Errorf("Read after EOF returned (%d, %v)", n, e)
+						break
+					}
 				}
 			}
 		}
@@ -632,7 +703,7 @@ func runRound(w *world, jb *job, no, G, P, size int, mix string) *roundOut {
 	t0 := time.Now()
 	runtime.GOMAXPROCS(jb.Full)
 	ro := &roundOut{Rep: jb.Rep, Round: no, G: G, P: P, Size: size, Mix: mix,
-		ByTmpl: map[string]int{}, ByKind: map[string]int{}, Obj: map[string]*objOut{}, ErrClasses: map[string]int{}}
+		ByTmpl: map[string]int{}, ByKind: map[string]int{}, Variants: map[string]int{}, Obj: map[string]*objOut{}, ErrClasses: map[string]int{}}
 	label := fmt.Sprintf("c20/rep%d/round%d", jb.Rep, no)
 	rrng := mon.NewRNG(jb.Seed, label)
 	w.fresh(no + 7*jb.Rep)
@@ -659,7 +730,7 @@ func runRound(w *world, jb *job, no, G, P, size int, mix string) *roundOut {
 			start = rrng.Intn(len(pool))
 		}
 		for j := 0; j < per; j++ {
-			op := &opInst{t: pool[(start+j)%len(pool)], g: g, j: j}
+			op := &opInst{t: pool[(start+j)%len(pool)], g: g, j: j, variant: rrng.Intn(8)}
 			plans[g] = append(plans[g], op)
 			all = append(all, op)
 		}
@@ -721,6 +792,31 @@ func runRound(w *world, jb *job, no, G, P, size int, mix string) *roundOut {
 	// the measured phase
 	t1 := time.Now()
 	runtime.GOMAXPROCS(P)
+	if mix != "dec" {
+		// warm-up, alone, with the round's GOMAXPROCS already in force: a few
+		// complete encryptions whose stream is closed twice
+		for i := 0; i < 4; i++ {
+			func() {
+				defer func() {
+					if p := recover(); p != nil {
+						ro.Fails = append(ro.Fails, failOut{Key: "result:warm-up:close-twice:panic", What: fmt.Sprintf("panic: %v\n%s", p, debug.Stack()),
+							Case: map[string]any{"rep": jb.Rep, "round": no}})
+					}
+				}()
+				var junk bytes.Buffer
+				wc, err := age.Encrypt(&junk, w.warmRec)
+				if err != nil {
+					panic(err)
+				}
+				wc.Write(probePlain)
+				if err := wc.Close(); err != nil {
+					panic(err)
+				}
+				wc.Close()
+				ro.WarmDoubleClose++
+			}()
+		}
+	}
 	start := make(chan struct{})
 	var wg sync.WaitGroup
 	for g := 0; g < G; g++ {
@@ -762,6 +858,26 @@ func runRound(w *world, jb *job, no, G, P, size int, mix string) *roundOut {
 		map[string]any{"rep": jb.Rep, "round": no, "goroutines": G, "gomaxprocs": P, "payload": size, "mix": mix})
 
 	// bookkeeping
+	var encOps []*opInst
+	for _, op := range all {
+		if op.t.kind == "enc" || op.t.kind == "derive" {
+			encOps = append(encOps, op)
+			ro.Variants["enc:"+encVariants[op.variant%len(encVariants)]]++
+			if encDoubleClose(op.variant) {
+				ro.DoubleCloseOps++
+			}
+		} else {
+			ro.Variants["dec:"+decVariants[op.variant%len(decVariants)]]++
+		}
+	}
+	sort.Slice(encOps, func(i, j int) bool { return encOps[i].call < encOps[j].call })
+	for i, a := range encOps {
+		for _, b := range encOps[:i] {
+			if b.ret > a.call {
+				ro.EncOverlapPairs++
+			}
+		}
+	}
 	for _, op := range all {
 		ro.Ops++
 		ro.ByTmpl[op.t.name]++
